@@ -27,15 +27,36 @@ const c01Rule = "chain-machine history (signed txs through DeliverTx on the real
 
 func (o *cmC01) check(m *chainMachine, pre, post *cmSnap, what string) {
 	// (1) module account = sum of recorded balances
-	sum := sdk.ZeroInt()
+	sum, sum2 := sdk.ZeroInt(), sdk.ZeroInt()
+	addRec := func(c sdk.Coin, rec string) {
+		switch c.Denom {
+		case cmDenom:
+			sum = sum.Add(c.Amount)
+		case cmDenom2:
+			sum2 = sum2.Add(c.Amount)
+		default:
+			m.fatalf("c01-record-denom", "after %s: escrow record %s is kept in denomination %q nobody deposited", what, rec, c.Denom)
+		}
+	}
 	for _, a := range post.accounts {
-		sum = sum.Add(a.Balance.Amount)
+		addRec(a.Balance, cmAccKey(a.ID))
 	}
 	for _, p := range post.payments {
-		sum = sum.Add(p.Balance.Amount)
+		addRec(p.Balance, cmPayKey(p))
 	}
 	if !sum.Equal(post.escrowBank) {
 		m.fatalf("c01-module-balance", "after %s: escrow module account holds %s uakt but recorded account+payment balances sum to %s", what, post.escrowBank, sum)
+	}
+	if !sum2.Equal(post.escrowBank2) {
+		m.fatalf("c01-module-balance-denom2", "after %s: escrow module account holds %s %s but recorded account+payment balances in that denomination sum to %s", what, post.escrowBank2, cmDenom2, sum2)
+	}
+	// the second denomination is conserved too: whatever left the actors is in escrow, and vice versa
+	d2 := post.escrowBank2.Sub(pre.escrowBank2)
+	for _, a := range m.actors {
+		d2 = d2.Add(post.bank2[a.bech].Sub(pre.bank2[a.bech]))
+	}
+	if !d2.IsZero() {
+		m.fatalf("c01-denom2-conservation", "after %s: %s %s were created or destroyed across actors and the escrow module", what, d2, cmDenom2)
 	}
 	// (2) per actor: bank delta explained by own deposits / refunds / payouts only
 	preAcc := map[string]etypes.Account{}
